@@ -309,6 +309,10 @@ def run_block( stmts, env, ignore_calls=(), stop_at_yield=True ):
         if isinstance( st, ast.Assign ) and len( st.targets ) == 1:
             _store( st.targets[0], fold( st.value, env ), env )
             continue
+        if isinstance( st, ast.AugAssign ) and isinstance( st.target, ( ast.Name, ast.Subscript, ast.Attribute )):
+            load = ast.copy_location( ast.fix_missing_locations( ast.parse( ast.unparse( st.target ), mode='eval' ).body ), st )
+            _store( st.target, fold( ast.BinOp( left=load, op=st.op, right=st.value ), env ), env )
+            continue
         if isinstance( st, ast.If ):
             out = run_block( st.body if fold( st.test, env ) else st.orelse, env, ignore_calls, stop_at_yield )
             if out.kind != 'fall':
